@@ -113,7 +113,7 @@ func (tr *Tr) read(h *HeapV, key ...Term) Term {
 		if h.initial && h.comp.gotype != nil && !tr.openTerm(mk) {
 			var f Term
 			if isInterface(h.comp.gotype) {
-				f = app("idsOK", t, tr.alloc0)
+				f = And(app("idsOK", t, tr.alloc0), app("valOK", t))
 			} else {
 				f = tr.eng.sorts.idsOKTerm(h.comp.gotype, t, tr.alloc0, 0)
 			}
@@ -128,7 +128,11 @@ func (tr *Tr) read(h *HeapV, key ...Term) Term {
 	case hIte:
 		t = Ite(h.cond, tr.read(h.a, key...), tr.read(h.b, key...))
 	case hFrame:
-		t = Ite(h.keep(key), tr.read(h.prev, key...), app(h.fname, key...))
+		fresh := app(h.fname, key...)
+		if h.comp.gotype != nil && isInterface(h.comp.gotype) && !tr.openTerm(mk) {
+			tr.assume(app("valOK", fresh), "values written by callees satisfy the data invariant")
+		}
+		t = Ite(h.keep(key), tr.read(h.prev, key...), fresh)
 	case hCopy:
 		in := And(Eq(key[0], h.dstArr), app("<=", h.dstLo, key[1]), app("<", key[1], app("+", h.dstLo, h.n)))
 		t = Ite(in, tr.read(h.src, h.srcArr, app("+", app("-", key[1], h.dstLo), h.srcLo)), tr.read(h.prev, key...))
